@@ -31,6 +31,7 @@ void profile_blast(RunCtx& ctx)
     kn.pad_text = false;
     kn.crlf = false;
     kn.empty_elems = false;            // empty <label/> elements would shift the label indices list_blocks() computes
+    kn.project_root = false;           // list_blocks() builds its XPaths under /nta
     kn.big_text_lines = 0;             // the fault positions are computed from the block texts of the model
     kn.rate_before_invariant = false;  // list_blocks() computes label XPaths for the invariant-first order
     const Rng render_rng = rng.fork();
